@@ -37,6 +37,7 @@ inductive Cmd
   | waitAllImm (arr : Int) (s e : Int)
   | waitAllReg (arr : Int) (s e : Nat)
   | recvEpr (remote sock : Int) (ids : Option Int) (res : Int)
+  | createEpr (remote sock : Int) (ids : Option Int) (args res : Int)
   | mov (a b : Nat)
   | qfree (r : Nat)
   deriving DecidableEq, Repr, Inhabited
@@ -60,6 +61,9 @@ def Cmd.render : Cmd → String
   | .recvEpr rem sock ids res =>
       "recv_epr(" ++ toString rem ++ "," ++ toString sock ++ ") " ++
         (match ids with | some a => toString a | none => "C0") ++ " " ++ toString res
+  | .createEpr rem sock ids args res =>
+      "create_epr(" ++ toString rem ++ "," ++ toString sock ++ ") " ++
+        (match ids with | some a => toString a | none => "C0") ++ " " ++ toString args ++ " " ++ toString res
   | .mov a b => "mov R" ++ toString a ++ " R" ++ toString b
   | .qfree r => "qfree R" ++ toString r
 
@@ -298,6 +302,34 @@ def emit (d : Data) (c : Config) : Option (List Cmd) :=
     else emitWaitAll d c
   else none
 
+
+/-! ### the CREATOR role (`create_keep`, `create_rsp`, `create_measure`) -/
+
+/-- does the creator side emit Bell corrections on the wait-all / post-routine / move-to-memory
+path? Read off the real builder's emission (`Gen/Corrections.lean`). -/
+structure CreatorData where
+  cWaitAll : Bool
+  cPost : Bool
+  cMove : Bool
+  deriving DecidableEq, Repr
+
+/-- the request command of the creator instead of the receiver's -/
+def retarget (args : Int) : List Cmd → List Cmd
+  | .recvEpr rem sock ids res :: rest => .createEpr rem sock ids args res :: rest
+  | cs => cs
+
+/-- `sdk_epr_keep(role=CREATE)`, `sdk_epr_rsp_create`, `sdk_epr_measure(role=CREATE)`: the same
+builder paths as for the receiver (`_build_cmds_post_epr`, `_build_cmds_wait_move_epr_to_mem` are
+shared, guarded by `role`), with `create_epr` as request command. Remote state preparation and
+measure-directly requests only wait for the results. -/
+def emitCreate (d : Data) (cd : CreatorData) (c : Config) (args : Int) : Option (List Cmd) :=
+  if c.api == "keep" then
+    let flag := if c.post then cd.cPost else if c.nv then cd.cMove else cd.cWaitAll
+    (emit d { c with expect := c.expect && flag }).map (retarget args)
+  else if c.api == "rsp" || c.api == "measure" then
+    (emitMeasure d c).map (retarget args)
+  else none
+
 /-- initial values of the qubit-ids array: `sdk_epr_keep` stores 0 for every pair when there is a
 single communication qubit, the handle ids otherwise; `sdk_epr_rsp_recv` always the handle ids -/
 def idsInit (c : Config) (handleIds : List Int) : List Int :=
@@ -371,6 +403,7 @@ def step (code : List Cmd) (mem : Mem) (s : St) : Option St :=
     | .waitAllImm _ _ _ => some ⟨s.pc + 1, s.regs, s.trace⟩
     | .waitAllReg _ _ _ => some ⟨s.pc + 1, s.regs, s.trace⟩
     | .recvEpr _ _ _ _ => some ⟨s.pc + 1, s.regs, s.trace⟩
+    | .createEpr _ _ _ _ _ => some ⟨s.pc + 1, s.regs, s.trace⟩
     | .mov a b => some ⟨s.pc + 1, s.regs, s.trace ++ [.mov (s.regs a) (s.regs b)]⟩
     | .qfree r => some ⟨s.pc + 1, s.regs, s.trace ++ [.qfree (s.regs r)]⟩
 
